@@ -89,4 +89,7 @@ AllHoldQ(os, env) == \A i \in 1..Len(os) : HoldsQ(os[i], env)
 FailingQ(os, env) == {os[i].name : i \in {j \in 1..Len(os) : ~HoldsQ(os[j], env)}}
 
 \* environments are functions from key strings to rationals, built with TLC's  k :> v  and  f @@ g
+IStr(i) == ToString(i)
+RECURSIVE EnvSeq(_, _, _)
+EnvSeq(prefix, vals, i) == IF i > Len(vals) THEN <<>> ELSE ((prefix \o IStr(i)) :> vals[i]) @@ EnvSeq(prefix, vals, i + 1)
 =============================================================================
